@@ -268,7 +268,7 @@ func c19ParamLiteral() (map[string]c19Field, uint64, map[string]uint64, error) {
 		fmt.Fprintf(&prog, "\tfmt.Println(%q, unsafe.Sizeof(p.%s), unsafe.Offsetof(p.%s), packed)\n\tpacked += binary.Size(p.%s)\n", n, n, n, n)
 	}
 	prog.WriteString("}\n")
-	dir, err := os.MkdirTemp(filepath.Join(vk.VerifDir(), "build", "run"), "c19param")
+	dir, err := os.MkdirTemp(filepath.Join(vk.BuildDir(), "run"), "c19param")
 	if err != nil {
 		return nil, 0, nil, err
 	}
@@ -350,7 +350,7 @@ func c19CheckConsts(m *vk.Monitor, l *c19CLayout) {
 }
 
 func c19CheckGenerator(m *vk.Monitor) {
-	tmp, err := os.MkdirTemp(filepath.Join(vk.VerifDir(), "build", "run"), "c19gen")
+	tmp, err := os.MkdirTemp(filepath.Join(vk.BuildDir(), "run"), "c19gen")
 	if err != nil {
 		m.Inconclusive("mkdtemp: %v", err)
 		return
